@@ -122,6 +122,10 @@ type lbRun struct {
 	Assume  []string
 	Rule    string
 	noExplore bool
+	// NoEvidence: finish() only prints and keeps the coverage map in LastCov (the property's evidence
+	// is written by its kernel runner)
+	NoEvidence bool
+	LastCov    map[string]interface{}
 }
 
 type lbResult struct {
@@ -334,6 +338,9 @@ func (lr *lbRun) finish(res *lbResult, level string, extra map[string]interface{
 	}
 	if res.Stats.UnwindFail > 0 {
 		fmt.Printf("INCONCLUSIVE: %d paths exceeded the unwinding bound\n", res.Stats.UnwindFail)
+		for w, n := range res.Stats.UnwindWhere {
+			fmt.Printf("  %s ×%d\n", w, n)
+		}
 	}
 	if inconclusive > 0 {
 		fmt.Printf("INCONCLUSIVE: %d obligations undecided by all solvers\n", inconclusive)
@@ -370,8 +377,11 @@ func (lr *lbRun) finish(res *lbResult, level string, extra map[string]interface{
 	for k, v := range extra {
 		cov[k] = v
 	}
-	ev := &Evidence{PropertyID: prop, Tier: opt.Tier, Seed: opt.Seed, Level: level, Coverage: cov, Assumptions: lr.Assume, WallS: time.Since(startTime).Seconds(), Violations: violations}
-	writeEvidence(ev)
+	lr.LastCov = cov
+	if !lr.NoEvidence {
+		ev := &Evidence{PropertyID: prop, Tier: opt.Tier, Seed: opt.Seed, Level: level, Coverage: cov, Assumptions: lr.Assume, WallS: time.Since(startTime).Seconds(), Violations: violations}
+		writeEvidence(ev)
+	}
 	fmt.Printf("%s: %d programs, %d paths, %d/%d obligations discharged, %d violations, %d known, %.1fs\n", prop, programs, paths, discharged, obligations, violations, len(kh), time.Since(startTime).Seconds())
 	if violations > 0 {
 		return 1
